@@ -420,6 +420,12 @@ pub(crate) mod proofs {
                 k += 1;
             }
             assert!(DROPS.load(SeqCst) == base + c,                          "each consumed payload dropped once by its owner");
+            // a producer may still hold a reservation it never published (a reserve_slot() never sent, an async setter cancelled mid-way): the slot's bytes are
+            // NOT a live payload (stale content of an event delivered long ago, or the filler) -- teardown must not run a destructor over them
+            let with_reservation: bool = kani::any();
+            if with_reservation && len < N as u32 {
+                assert!(q.leak_slot_internal(|| false).is_some(),                "room left: a reservation is granted");
+            }
             drop(q);
             assert!(DROPS.load(SeqCst) == base + len,                        "teardown drops exactly the leftovers, once each; initial filler slots are never dropped");
             kani::cover!(true, "end of harness reachable (vacuity guard)");
